@@ -497,6 +497,7 @@ package quickfix
 // No modifies clause: callers only rely on the postconditions (the frame proof of this long function costs minutes).
 //@ spec onebyte(d []byte, c int) bool = len(d) == 1 && d[0] == c
 //@ func (s *session) doReject [C06]
+//@   suffixsplit
 //@   ensures @target (s.store.#T == old(s.store.#T) && s.store.#R == old(s.store.#R)) || s.store.#R > old(s.store.#R)
 //@   ensures @nodelivery s.application.#n == old(s.application.#n)
 //@   requires sessfull(s) && msgok(msg) && rej != nil
